@@ -318,3 +318,48 @@ PROPS["C17"] = dict(
         dict(name="nodefail", pkg="c17", run="TestNodeFailure", checks=dict(quick=32, thorough=600), shards=16, timeout=dict(quick=400, thorough=2400), shrinktime="120s"),
     ],
 )
+
+PROPS["C14"] = dict(
+    level="fault_enumeration",
+    manifest=dict(
+        text=("2-3 complete in-process nodes joined by the real ScheduleMessage RPC over in-memory gRPC; generated placements of 1-5 subscribers "
+              "(filters/topics from the C01 grammar) and of the publisher; hand-delivered gossip decides which subscriptions the publishing node "
+              "knows. For every generated publish EVERY subset of the remote nodes is made unreachable once (exhaustive over fault subsets inside "
+              "each generated configuration). Oracle per publish: exactly one append on each reachable node hosting a matching subscription known to "
+              "the publisher's node, none elsewhere (read from recording wrappers around the real logs); every local matching subscription on a "
+              "reached node gets exactly one copy, nobody else any; PUBACK iff every node of the destination set was reached."),
+        note=_L3_NOTE,
+        technique="property-based generation of configurations with exhaustive enumeration of unreachable-destination subsets per publish",
+    ),
+    rule=("a case = nodes, publisher node, subscribers (node, filter, QoS, known-to-publisher?), publishes each repeated for all 2^r subsets of "
+          "unreachable remote nodes. Non-trivial = the destination set contains a remote node. Distinct = distinct case."),
+    assumptions=["unreachable = the transport's Call returns an error without invoking the RPC", "QoS 0 publishes carry no acknowledgement to judge"],
+    runs=[
+        dict(name="regress", pkg="c14", run="TestRegress", timeout=300),
+        dict(name="random", pkg="c14", run="TestRandom", checks=dict(quick=320, thorough=6000), shards=16, timeout=dict(quick=400, thorough=2400), shrinktime="90s"),
+    ],
+)
+
+PROPS["C05"] = dict(
+    level="fault_enumeration",
+    manifest=dict(
+        text=("1-3 in-process nodes hosting subscribers; 1-2 clients on node 0 send generated sequences of PUBLISH (QoS 0/1/2, identifiers from a "
+              "pool of 3 so that they repeat, DUP or not), PUBREL (pending, unknown, already completed) and handshake timeouts (sweep of the "
+              "in-flight table). Every write-producing step carries a fault plan: a subset of nodes whose write fails, as 'peer unreachable', "
+              "'remote log refuses' or (local node) 'local log refuses'. A fixed part enumerates all 8 failure subsets x modes on 3 destinations. "
+              "Oracle (recording log wrappers on every node + packets read by the client): a payload is stored exactly once on every destination "
+              "whose write was not failed and nowhere else; PUBACK/PUBCOMP exactly once iff no destination write failed; a QoS 2 payload is stored "
+              "nowhere before its PUBREL, once after it, never for a PUBREL without pending handshake, never after the PUBREC expired, never twice."),
+        note=_L3_NOTE + " A repeated QoS 2 PUBLISH while the handshake is pending makes the broker end the session; the check only demands that nothing is forwarded.",
+        technique="stateful property-based testing with injected write failures (random sequences + exhaustive failure subsets on a fixed topology)",
+    ),
+    rule=("a case = nodes, subscribers, client count, step list with per-step fault plan. Non-trivial = a fault hits a destination of a QoS>0 "
+          "publish/PUBREL, or an identifier is repeated while pending, or a PUBREL arrives without pending handshake, or pending handshakes expire. "
+          "Distinct = distinct case."),
+    assumptions=["all subscriptions are known cluster-wide before the publishes (gossip delivered)", "acknowledgement ordering is judged at quiescence: acked => every destination write succeeded"],
+    runs=[
+        dict(name="regress", pkg="c05", run="TestRegress", timeout=300),
+        dict(name="subsets", pkg="c05", run="TestFaultSubsets", timeout=400),
+        dict(name="random", pkg="c05", run="TestRandom", checks=dict(quick=480, thorough=8000), shards=16, timeout=dict(quick=400, thorough=2400), shrinktime="90s"),
+    ],
+)
